@@ -4,8 +4,9 @@
    append, setslice_with_length, setitem, __add__, __radd__) are run by the reference
    interpreter Spec/PyMini.v.  The contexts are strata: a generated method may call the
    generated methods of the strata below it ([ctxF3]: splice, __add__, __radd__ -- they read
-   self.divides; [ctxF4]: append, setslice_with_length -- they call splice, __add__, __radd__;
-   [ctxF5]: setitem -- it calls setslice_with_length).
+   self.divides -- and join; [ctxF4]: append, setslice_with_length -- they call splice, __add__,
+   __radd__ -- and __mul__, whose sum() adds with __add__; [ctxF5]: setitem -- it calls
+   setslice_with_length).
 
    OBJECTS.  A Chunk is  VRec "Chunk" [("_s", str); ("_atts", dict)]  -- its two instance
    attributes; a FmtStr is  VRec "FmtStr" [("chunks", list of Chunks)]  -- the instance
